@@ -308,3 +308,12 @@ Proof.
   intros N P R. unfold epoch_instant. rewrite (split_on_no_occurrence dot repr N). cbn [hd].
   unfold parse_int64. now rewrite P, R.
 Qed.
+
+(* ------------------------------------------------------------------ the lines of the file *)
+Lemma split_lines_spec content :
+  join newline (split_lines content) = content /\ Forall (fun l => ~ In newline l) (split_lines content) /\
+  (forall ls, ls <> [] -> Forall (fun l => ~ In newline l) ls -> join newline ls = content -> ls = split_lines content).
+Proof.
+  unfold split_lines. split; [apply join_split_on|]. split; [apply split_on_no_sep|].
+  intros ls NE F <-. symmetry. now apply split_on_unique.
+Qed.
